@@ -353,7 +353,9 @@ pub fn run(tier: Tier) -> i32 {
         match sut::build_str(&s) {
             Outcome::Ok(b) => usable.push((n, s, b)),
             other => {
-                if !n.starts_with("c0") && !n.starts_with("c1") {
+                // (the extra programs rely on things the statements do not pin - an `.equ` given
+                // twice alike is accepted: where a tree refuses them there is nothing to compare)
+                if !n.starts_with("c0") && !n.starts_with("c1") && !n.starts_with("x-") {
                     corpus_invalid.push(format!("{}: {}", n, other.to_json()));
                 }
             }
